@@ -42,6 +42,9 @@ def main(argv=None):
     entries = [e for e in findings.load_entries(prop) if e['status'] == 'open']
     known, unknown = agg['known'], agg['fails']
 
+    if os.environ.get('VERIF_DUMP_FAILS'):
+        with open(os.environ['VERIF_DUMP_FAILS'], 'w') as f:
+            json.dump(unknown, f, default=repr)
     exit_code = 0
     violations = []
     # order unknown failing cases: lowest level, then shortest case  -> first printed is the simplest
